@@ -325,6 +325,7 @@ type Violation struct {
 	Stmt   *Stmt
 	// InCond: the failing evaluation happened inside a while condition or assertion tree.
 	Where string // "stmt", "if-cond", "while-cond"
+	Obj   string // load-range: which kind of object was read ("receiver array", "local array", "caller buffer")
 	frame *frame
 }
 
@@ -382,6 +383,7 @@ type Machine struct {
 	stepsInRun  int64
 	Hung        bool
 	curFrame    *frame
+	failObj     string
 	pendingArgs []Value
 	pendingSkip *Int
 	pure        int
@@ -414,6 +416,7 @@ func (m *Machine) fail(kind string, e *Expr, format string, args ...any) {
 			v.Line = m.curStmt.Line
 		}
 		v.frame = m.curFrame
+		v.Obj, m.failObj = m.failObj, ""
 		m.Viol = v
 	}
 	panic(abortExec{})
@@ -775,7 +778,20 @@ func (m *Machine) evalIndex(fr *frame, e *Expr) Value {
 		// An element that is itself an array: a view into the flat backing store.
 		return Value{K: VArray, A: arr, Lo: lo + int(n)*es, Hi: lo + (int(n)+1)*es}
 	}
-	return IntVal(arr.E[lo+int(n)])
+	v := arr.E[lo+int(n)]
+	if arr.ET != nil && arr.ET.K == TInt && arr.ET.Refined && !inRange(v, arr.ET) {
+		// Only zero-initialisation can put such a value there: every store is checked.
+		obj := "caller buffer"
+		switch {
+		case arr.Recv:
+			obj = "receiver array"
+		case arr.owner != nil:
+			obj = "local array"
+		}
+		m.failObj = obj
+		m.fail("load-range", e, "element value %s read from a zero-initialised %s whose elements are declared %s", v, obj, arr.ET.Str)
+	}
+	return IntVal(v)
 }
 
 func (m *Machine) evalSlice(fr *frame, e *Expr) Value {
